@@ -102,18 +102,20 @@ class RefractCut:
         loops = [i for i, st in enumerate(body) if isinstance(st, (ast.While, ast.For))]
         helpers = [st for st in body if isinstance(st, ast.FunctionDef)]
         inner = [n for st in body if not isinstance(st, ast.FunctionDef) for n in ast.walk(st)]
-        bad = [n for n in inner if isinstance(n, (ast.Break, ast.Continue, ast.Try, ast.With, ast.Raise, ast.Yield, ast.FunctionDef, ast.Global, ast.Nonlocal))]
+        bad = [n for n in inner if isinstance(n, (ast.Continue, ast.Try, ast.With, ast.Raise, ast.Yield, ast.FunctionDef, ast.Global, ast.Nonlocal))]
         bad += [n for h in helpers for n in ast.walk(h) if isinstance(n, (ast.While, ast.For, ast.Try, ast.With, ast.Raise, ast.Yield, ast.Global, ast.Nonlocal))]
         rets = [n for n in inner if isinstance(n, ast.Return)]
         nested = [n for st in body for n in ast.walk(st) if isinstance(n, (ast.While, ast.For)) and n is not st and not isinstance(st, ast.FunctionDef)]
-        if len(loops) != 1 or not isinstance(body[loops[0]], ast.While) or body[loops[0]].orelse or bad or nested \
+        if len(loops) != 1 or body[loops[0]].orelse or bad or nested \
                 or len(rets) != 1 or body[-1] is not rets[0] or any(body.index(h) > loops[0] for h in helpers):
-            raise shim.TraceError('refract no longer has the shape `pre; while guard: body; post; return`')
+            raise shim.TraceError('refract no longer has the shape `pre; loop; post; return`')
         k = loops[0]
-        self.loop = loop = body[k]
         pre_all, self.post, self.ret = body[:k], body[k + 1:-1], body[-1].value
-        body_assigned = _assigned(loop.body)
-        control = [n for n in _loaded([loop.test]) if n in body_assigned]
+        self.guard, self.body, synth = self._normalise(body[k])
+        if any(isinstance(n, ast.Break) for st in self.post + pre_all for n in ast.walk(st)):
+            raise shim.TraceError('refract: break outside the loop')
+        body_assigned = _assigned(self.body)
+        control = [n for n in _loaded([self.guard]) if n in body_assigned]
         if len(control) != 2:
             raise shim.TraceError('refract: the loop condition reads %s of the names its body assigns (expected a counter and a step size)' % control)
         self.init, self.pre = {}, []
@@ -123,6 +125,7 @@ class RefractCut:
                 self.init[tg[0]] = ast.get_source_segment(src, st.value)
             else:
                 self.pre.append(st)
+        self.init.update({n: v for n, v in synth.items() if n in control})
         if sorted(self.init) != sorted(control):
             raise shim.TraceError('refract: loop-control variables %s are not initialised once before the loop' % control)
         def is_int(x):
@@ -133,15 +136,48 @@ class RefractCut:
             raise shim.TraceError('refract: cannot tell the iteration counter among %s' % control)
         self.counter = counters[0]; self.eps = [n for n in control if n != self.counter][0]
         later = _loaded(self.post + [self.ret])
-        state = [n for n in body_assigned if n not in control and (n in later or n in _read_before_write(loop.body))]
+        state = [n for n in body_assigned if n not in control and (n in later or n in _read_before_write(self.body))]
         if len(state) != 1:
             raise shim.TraceError('refract: the loop carries %s besides its control variables (expected the Newton variable only)' % state)
         self.to = state[0]
         self.has_cap = 'max_iterations' in self.params
-        self.guard_src = ast.get_source_segment(src, loop.test)
+        self.guard_src = ast.unparse(self.guard)
         self.info = {'params': self.params, 'defaults': self.defaults, 'init': {'counter': self.init[self.counter], 'eps': self.init[self.eps]},
                      'names': {'counter': self.counter, 'eps': self.eps, 'to': self.to}, 'guard_src': self.guard_src,
-                     'guard_reads_cap': 'max_iterations' in _loaded([loop.test]), 'body_assigns': body_assigned, 'has_cap': self.has_cap}
+                     'guard_reads_cap': 'max_iterations' in _loaded([self.guard]), 'body_assigns': body_assigned, 'has_cap': self.has_cap}
+
+    @staticmethod
+    def _normalise(loop):
+        """(condition under which a pass is made, statements of a pass, {synthesised control variable: initial value}) for the
+        loop forms  `while c: ...`,  `while True: if d: break; ...`,  `while c: if d: break; ...`  and
+        `for i in range(n): [if d: break;] ...`  (the range index becomes an explicit counter).  A break anywhere but in
+        leading `if d: break` statements, a `continue`, an `else` clause or any other iterable fail closed."""
+        body, conds, synth = list(loop.body), [], {}
+        if isinstance(loop, ast.While):
+            t = loop.test
+            if not (isinstance(t, ast.Constant) and t.value in (True, 1)):
+                conds.append(t)
+        else:
+            it = loop.iter
+            if not (isinstance(it, ast.Call) and isinstance(it.func, ast.Name) and it.func.id == 'range' and len(it.args) == 1 and not it.keywords
+                    and isinstance(loop.target, ast.Name)):
+                raise shim.TraceError('refract: a for loop that does not run over range(n)')
+            cnt = '__pass'
+            synth[cnt] = '0'
+            conds.append(ast.Compare(ast.Name(cnt, ast.Load()), [ast.Lt()], [it.args[0]]))
+        def is_break_if(st):
+            return isinstance(st, ast.If) and not st.orelse and len(st.body) == 1 and isinstance(st.body[0], ast.Break)
+        while body and is_break_if(body[0]):
+            conds.append(ast.UnaryOp(ast.Not(), body[0].test)); body = body[1:]
+        if isinstance(loop, ast.For):
+            body = [ast.Assign([ast.Name(loop.target.id, ast.Store())], ast.Name('__pass', ast.Load()))] + body + \
+                   [ast.AugAssign(ast.Name('__pass', ast.Store()), ast.Add(), ast.Constant(1))]
+        if not conds or not body or any(isinstance(n, ast.Break) for st in body for n in ast.walk(st)):
+            raise shim.TraceError('refract: the loop has no recognisable continuation condition (or breaks in the middle of a pass)')
+        guard = conds[0] if len(conds) == 1 else ast.BoolOp(ast.And(), conds)
+        for nd in [guard] + body:
+            ast.fix_missing_locations(nd)
+        return guard, body, synth
 
     def _exec(self, stmts, ns):
         mod = ast.Module([s for s in stmts], [])
@@ -158,12 +194,14 @@ class RefractCut:
         fresh loop state; returns dict(to0, step, eps, num, guard, out, m)"""
         import builtins, copy
         sb = lambda x: x if isinstance(x, shim.B) else builtins.bool(x)
-        ns = shim.base_namespace({'len': shim.sym_len, 'bool': sb,
+        nanf = lambda x: shim.var('NaN') if isinstance(x, str) and x.strip().lower() == 'nan' else shim._float(x)
+        ns = shim.base_namespace({'len': shim.sym_len, 'bool': sb, 'float': nanf,
                                   '__and__': lambda x, y: shim.B.lift(x) & shim.B.lift(y),
                                   '__or__': lambda x, y: shim.B.lift(x) | shim.B.lift(y),
                                   '__not__': lambda x: ~shim.B.lift(x)})
         vals = {'vector': shim.sym('v', vshape), 'normvector': shim.sym('n', nshape), 'n1': shim.var('n1'), 'n2': shim.var('n2'),
                 'error': shim.var('error'), 'max_iterations': shim.var('cap')}
+        shim.load(TORCH, [], ns)                     # module-level helpers of the file (a private helper a refactoring introduces)
         for p_ in self.params:
             if p_ not in vals:
                 raise shim.TraceError('refract has an unknown parameter %s' % p_)
@@ -172,11 +210,11 @@ class RefractCut:
         to0 = ns[self.to]
         m = int(_np_size(to0))
         nsb = dict(ns); nsb[self.to] = shim.sym('to', (m,)); nsb[self.counter] = shim.var('num')
-        self._exec(copy.deepcopy(self.loop.body), nsb)
+        self._exec(copy.deepcopy(self.body), nsb)
         nsg = dict(ns); nsg[self.eps] = shim.sym('eps', (m,)); nsg[self.counter] = shim.var('num')
         if not self.has_cap:
             nsg['max_iterations'] = shim.const(0)
-        guard = self._eval(_SymBool().visit(copy.deepcopy(self.loop.test)), nsg)
+        guard = self._eval(_SymBool().visit(copy.deepcopy(self.guard)), nsg)
         nsp = dict(ns); nsp[self.to] = shim.sym('to', (m,)); nsp[self.eps] = shim.sym('eps', (m,))
         self._exec(copy.deepcopy(self.post), nsp)
         out = self._eval(copy.deepcopy(self.ret), nsp)
